@@ -17,8 +17,10 @@ EXTENDS Game, Json, IOUtils
 Trace == ndJsonDeserialize(IOEnv.TRACE)
 
 VARIABLES l,       \* next trace line
-          rootBad  \* the current root was loaded with an en-passant target that is not capturable
-tvars == <<gvars, l, rootBad>>
+          rootBad, \* the current root was loaded with an en-passant target that is not capturable
+          lost     \* the implementation has left the game of chess (it played a move the rules do not know and its
+                   \* position is no longer a valid one): already reported; nothing more is judged until the next load
+tvars == <<gvars, l, rootBad, lost>>
 
 Has(ev, f) == f \in DOMAIN ev
 ToSet(s) == {s[i] : i \in 1..Len(s)}
@@ -99,6 +101,7 @@ TLoad ==
        /\ Expect(Valid(p), ev, "INFRA/invalid-root", "", [fen |-> ev.fen])
        /\ LoadFEN(p, HashOf(ev), SnapOf(ev))
        /\ rootBad' = ~EpNormalised(p)
+       /\ lost' = FALSE
        /\ Obs(ev, p, <<Entry(p, ev)>>)
 
 Int8(x) == ((x + 128) % 256) - 128
@@ -133,10 +136,12 @@ TMake ==
                   ELSE IF want.ep = -1
                        THEN Expect(ev.hash = ev.scrNo, ev, "C04/hash-counts-an-en-passant-target-that-cannot-be-captured", "", [fen |-> FenOf(want), m |-> ev.m])
                        ELSE Expect(~Has(ev, "scrWith") \/ ev.hash = ev.scrWith, ev, "C04/hash-misses-a-capturable-en-passant-target", "", [fen |-> FenOf(want), m |-> ev.m])
+               /\ lost' = lost
           ELSE \* pseudo-legal but illegal (the search makes and immediately undoes these): only the undo is judged
                /\ Expect(Has(ev, "illegal"), ev, "C01/illegal-move-played", "", [m |-> ev.m, fen |-> FenOf(pos)])
                /\ Expect(m \in Pseudo(pos), ev, "C05/generated-move-not-pseudo-legal", "", [m |-> ev.m, fen |-> FenOf(pos)])
-               /\ MakeMove(m, got, SnapOf(ev), Entry(got, ev))
+               /\ MakeMove(m, got, SnapOf(ev), [k |-> <<>>, h |-> HashOf(ev)])
+               /\ lost' = (lost \/ (~Has(ev, "illegal") /\ ~Valid(got)))
   /\ UNCHANGED rootBad
 
 TNullMake ==
@@ -147,7 +152,7 @@ TNullMake ==
        /\ Expect([got EXCEPT !.hm = 0] = [want EXCEPT !.hm = 0], ev, "X/null-successor", "", [want |-> FenOf(want), got |-> FenOf(got)])
        /\ MakeNull(want, SnapOf(ev), Entry(want, ev))
        /\ ObsHash(ev, want, hist')
-  /\ UNCHANGED rootBad
+  /\ UNCHANGED <<rootBad, lost>>
 
 \* UndoMove / UndoNullMove: pops the specification's stack; the logged snapshot (position, both counters,
 \* current hash and the entire hash history) must equal the snapshot logged before the matching make.
@@ -165,7 +170,7 @@ TUndo(kind) ==
             /\ Expect(got.hashes = top.before.hashes, ev, "C03/hash-history-not-restored", "", [m |-> EncM(top.m), want |-> Len(top.before.hashes), got |-> Len(got.hashes)])
             /\ Undo(top.bpos)
             /\ ObsHash(ev, pos', hist')
-  /\ UNCHANGED rootBad
+  /\ UNCHANGED <<rootBad, lost>>
 
 \* Transposition pair (C04): two move orders from one root.  The specification decides whether they reach
 \* the same key; the hashes must agree exactly then.  Move 0 is the null move.
@@ -183,7 +188,7 @@ TTransp ==
        /\ LET pa == Play(root, ev.ma, 1) pb == Play(root, ev.mb, 1) IN
             Expect((Key(pa) = Key(pb)) = (ev.ha = ev.hb), ev, "C04/transposition-hash", "",
                    [fen |-> FenOf(root), ma |-> ev.ma, mb |-> ev.mb, sameKey |-> Key(pa) = Key(pb)])
-  /\ UNCHANGED <<gvars, rootBad>>
+  /\ UNCHANGED <<gvars, rootBad, lost>>
 
 \* UCI position command (C02, C10, C11): start position + move list as text, the driver's `fen` answer
 TUciPosition ==
@@ -193,7 +198,7 @@ TUciPosition ==
        /\ Expect(Valid(root) /\ LinePlayable(root, ev.moves, 1), ev, "INFRA/uci-line", "", [fen |-> ev.fen])
        /\ LET want == Play(root, ev.moves, 1) IN
             Expect(ev.fenOut = FenOf(want), ev, "C02/uci-position", IF want.hm >= 128 /\ ev.fenOut = FenOf([want EXCEPT !.hm = Int8(want.hm)]) THEN "clock/int8-wrap" ELSE "", [want |-> FenOf(want), got |-> ev.fenOut])
-  /\ UNCHANGED <<gvars, rootBad>>
+  /\ UNCHANGED <<gvars, rootBad, lost>>
 
 \* UCI: position + `go depth 1`; a root with legal moves and clock < 100 is answered `bestmove 0000`
 \* exactly when it is the third occurrence (C10 through the driver)
@@ -214,7 +219,7 @@ TUciRep ==
              THEN Expect((ev.best = "0000") = (RepCount(h) >= 3), ev, "C10/uci-third-occurrence", class,
                          [fen |-> ev.fen, moves |-> ev.moves, count |-> RepCount(h), best |-> ev.best])
              ELSE TRUE
-  /\ UNCHANGED <<gvars, rootBad>>
+  /\ UNCHANGED <<gvars, rootBad, lost>>
 
 \* `position fen F moves <text>`: a move text is applied iff it denotes a pseudo-legal move of F (C05 through the GUI)
 TUciMoves ==
@@ -223,7 +228,15 @@ TUciMoves ==
        /\ Expect(FenOf(root) = ev.fen /\ Valid(root), ev, "INFRA/fen-projection", "", [fen |-> ev.fen])
        /\ Expect(got = want, ev, "C05/uci-move-acceptance", "", [fen |-> ev.fen, acceptedNotPseudoLegal |-> got \ want, pseudoLegalNotAccepted |-> want \ got])
        /\ Expect(ev.p1 = 0, ev, "C05/uci-malformed-move-accepted", "", [fen |-> ev.fen, n |-> ev.p1])
-  /\ UNCHANGED <<gvars, rootBad>>
+  /\ UNCHANGED <<gvars, rootBad, lost>>
+
+\* the engine refused a FEN text: if it is the canonical text of a valid position with a clock a FEN may carry
+\* (halfmove clock <= 100, fullmove >= 1) it had to be accepted (C11)
+TFenRejected ==
+  /\ IsEvent("fenRejected")
+  /\ LET ev == Trace[l] p == PosOfJson(ev.pos) IN
+       Expect(~(FenOf(p) = ev.fen /\ Valid(p) /\ p.hm \in 0..100 /\ p.fm >= 1), ev, "C11/valid-fen-rejected", "", [fen |-> ev.fen])
+  /\ UNCHANGED <<gvars, rootBad, lost>>
 
 \* the driver's perft command: leaf counts at depth 1 and 2 are the specification's
 RECURSIVE PerftS(_, _)
@@ -238,22 +251,24 @@ TUciPerft ==
        /\ Expect(FenOf(root) = ev.fen /\ Valid(root), ev, "INFRA/fen-projection", "", [fen |-> ev.fen])
        /\ Expect(ev.p1 = PerftS(root, 1), ev, "C01/uci-perft-1", "", [fen |-> ev.fen, got |-> ev.p1, want |-> PerftS(root, 1)])
        /\ Expect(ev.p2 = PerftS(root, 2), ev, "C01/uci-perft-2", "", [fen |-> ev.fen, got |-> ev.p2, want |-> PerftS(root, 2)])
-  /\ UNCHANGED <<gvars, rootBad>>
+  /\ UNCHANGED <<gvars, rootBad, lost>>
 
 \* the search has returned: every make of the search must have been undone (only the game prefix is left)
 TBalanced ==
   /\ IsEvent("balanced")
   /\ Expect(Len(stack) = Trace[l].base, Trace[l], "C03/make-without-undo-when-the-search-returned", "", [left |-> Len(stack) - Trace[l].base, depth |-> Trace[l].depth, hard |-> Trace[l].hard])
-  /\ UNCHANGED <<gvars, rootBad>>
+  /\ UNCHANGED <<gvars, rootBad, lost>>
 
 \* the engine panicked during a valid call sequence (recorded by the recorder's recover handler)
 TPanic ==
   /\ IsEvent("panic")
   /\ LET ev == Trace[l] IN Report(ev, IF ev.engine THEN "PANIC/engine" ELSE "INFRA/recorder-panic", "", [msg |-> ev.msg, root |-> ev.fen])
-  /\ UNCHANGED <<gvars, rootBad>>
+  /\ UNCHANGED <<gvars, rootBad, lost>>
 
-TInit == GInit /\ l = 1 /\ rootBad = FALSE
-TNext == TLoad \/ TMake \/ TNullMake \/ TUndo("undo") \/ TUndo("nullundo") \/ TTransp \/ TUciPosition \/ TUciRep \/ TPanic \/ TBalanced \/ TUciPerft \/ TUciMoves
+TInit == GInit /\ l = 1 /\ rootBad = FALSE /\ lost = FALSE
+Judged == TLoad \/ TMake \/ TNullMake \/ TUndo("undo") \/ TUndo("nullundo") \/ TTransp \/ TUciPosition \/ TUciRep \/ TPanic \/ TBalanced \/ TUciPerft \/ TUciMoves \/ TFenRejected
+Skip == /\ lost /\ l <= Len(Trace) /\ Trace[l].ev # "load" /\ l' = l + 1 /\ UNCHANGED <<gvars, rootBad, lost>>
+TNext == Skip \/ ((~lost \/ (l <= Len(Trace) /\ Trace[l].ev = "load")) /\ Judged)
 
 \* printed once at the end: how far the trace was consumed
 Done == PrintT("DONE " \o ToString(TLCGet("stats").diameter - 1) \o " " \o ToString(Len(Trace)))
